@@ -25,6 +25,7 @@ Fixpoint set_assoc (x : string) (v : value) (st : gstate) : gstate :=
 Definition cenv (W : wsys) : string -> list value -> res value :=
   fun x args => match args, lookup x (w_consts W) with
                 | [], Some v => Ok v
+                | _ :: _, Some f => vapply f (VTup args)      (* operator-valued CONSTANT given as a finite table over <<args>> *)
                 | _, _ => Err ("constant without a value in the walk configuration: " ++ x)
                 end.
 
